@@ -1133,6 +1133,11 @@ fn braced(p: &str, m: Mo) -> TU {
 }
 
 const PARAMS: [&str; 8] = ["x", "y", "e", "u", "@", "*", "#", "1"];
+/// every parameter kind of `resolve.rs`: variables, all special parameters, positional incl. `${00}`, `${10}`, overflow
+const ALL_PARAMS: [&str; 20] = [
+    "x", "y", "e", "u", "r", "@", "*", "#", "?", "-", "$", "!", "0", "1", "2", "00", "01", "10", "12",
+    "99999999999999999999",
+];
 const SWITCHES: [(bool, char); 8] =
     [(false, '-'), (true, '-'), (false, '='), (true, '='), (false, '?'), (true, '?'), (false, '+'), (true, '+')];
 const TRIMS: [(char, bool); 4] = [('#', false), ('#', true), ('%', false), ('%', true)];
@@ -1177,7 +1182,16 @@ fn dq_units(full: bool) -> Vec<TU> {
     v.push(braced("x", Mo::None));
     v.push(braced("x", Mo::Len));
     v.push(braced("@", Mo::Len));
-    let ps: &[&str] = if full { &["x", "e", "u", "@", "*", "1"] } else { &["u", "e", "@"] };
+    if full {
+        for p in ALL_PARAMS {
+            v.push(braced(p, Mo::None));
+            v.push(braced(p, Mo::Len));
+        }
+        for p in ["?", "-", "$", "!", "0", "2"] {
+            v.push(raw(p));
+        }
+    }
+    let ps: &[&str] = if full { &["x", "e", "u", "@", "*", "1", "#", "?", "!", "10", "00"] } else { &["u", "e", "@"] };
     for p in ps {
         for (colon, act) in SWITCHES {
             let ws = inner_words();
@@ -1229,9 +1243,18 @@ fn top_units(full: bool) -> Vec<WU> {
     for p in PARAMS {
         v.push(WU::Unq(raw(p)));
     }
-    for p in ["?", "0", "2", "3"] {
+    for p in ["?", "0", "2", "3", "-", "$", "!"] {
         if full {
             v.push(WU::Unq(raw(p)));
+        }
+    }
+    if full {
+        for q in ["", "a b", "'", "\\", " : ", "a\tb", "*"] {
+            v.push(WU::Dsq(q.into()));
+        }
+        for p in ALL_PARAMS {
+            v.push(WU::Unq(braced(p, Mo::None)));
+            v.push(WU::Unq(braced(p, Mo::Len)));
         }
     }
     v.push(WU::Unq(braced("x", Mo::None)));
@@ -1241,7 +1264,7 @@ fn top_units(full: bool) -> Vec<WU> {
             v.push(WU::Unq(braced(p, Mo::Len)));
         }
     }
-    let ps: &[&str] = if full { &["x", "e", "u", "@", "*", "1", "r", "#"] } else { &["u", "e", "@"] };
+    let ps: &[&str] = if full { &ALL_PARAMS } else { &["u", "e", "@"] };
     let ws = inner_words();
     for p in ps {
         for (colon, act) in SWITCHES {
@@ -1255,7 +1278,7 @@ fn top_units(full: bool) -> Vec<WU> {
         v.push(WU::Unq(braced("x", Mo::Tr { side, long, w: vec![lit('a'), lit('*')] })));
         if full {
             for w in patterns() {
-                for p in ["x", "@", "u", "y"] {
+                for p in ["x", "@", "u", "y", "*", "#", "1", "?", "10"] {
                     v.push(WU::Unq(braced(p, Mo::Tr { side, long, w: w.clone() })));
                 }
             }
@@ -1278,9 +1301,19 @@ const X_STATES: [&str; 10] = [
 ];
 const Y_STATES: [&str; 4] = ["", "y=s62", "y=s2a", "y=s6120203a62"];
 const R_STATES: [&str; 3] = ["", "!r=U", "!r=s-"];
-const POS_STATES: [&str; 6] = ["pos=0", "pos=1:-", "pos=1:612062", "pos=3:61:-:622063", "pos=2:3a:613a3a62", "pos=2:-:-"];
-const IFS_STATES: [&str; 9] =
-    ["", "IFS=s3a", "IFS=s203a", "IFS=s-", "IFS=U", "IFS=s61", "IFS=sc2a0", "IFS=a2:3a:20", "IFS=s3a20"];
+const POS_STATES: [&str; 7] = [
+    "pos=0",
+    "pos=1:-",
+    "pos=1:612062",
+    "pos=3:61:-:622063",
+    "pos=2:3a:613a3a62",
+    "pos=2:-:-",
+    "pos=11:61:62:63:64:65:66:67:68:69:6a206b:6c",
+];
+const IFS_STATES: [&str; 11] = [
+    "", "IFS=s3a", "IFS=s203a", "IFS=s-", "IFS=U", "IFS=s61", "IFS=sc2a0", "IFS=a2:3a:20", "IFS=s3a20", "IFS=s3a2061",
+    "IFS=s2d093a",
+];
 
 fn state_text(r: &mut Rng) -> String {
     let mut parts: Vec<String> = vec![];
@@ -1295,7 +1328,112 @@ fn state_text(r: &mut Rng) -> String {
     if r.chance(1, 4) {
         parts.push("st=3".into());
     }
+    if r.chance(1, 4) {
+        parts.push(format!("fl={}", r.pick(&["a", "C", "aC", "h", "bv", "aChbv", "v"])));
+    }
+    if r.chance(1, 6) {
+        parts.push("pid=77".into());
+    }
+    if r.chance(1, 3) {
+        parts.push(format!("bg={}", r.pick(&["41", "0", "7"])));
+    }
     parts.join(" ")
+}
+
+/// places the word in one of the expansion contexts (simple-command argument, `for` list, array
+/// assignment, scalar assignment, declaration utility, here-document), sometimes with further words
+fn ctx_case(r: &mut Rng, state: &str, w: &[WU]) -> String {
+    let here_ok = w.iter().all(|u| matches!(u, WU::Unq(_))) && {
+        let ts: Vec<TU> = w.iter().filter_map(|u| if let WU::Unq(t) = u { Some(t.clone()) } else { None }).collect();
+        render_tus(&ts, Ctx::Here, &mut String::new()).is_some()
+    };
+    let ctx = match r.below(20) {
+        0..=9 => "arg",
+        10 | 11 | 12 => "for",
+        13 | 14 => "arr",
+        15 | 16 => "asg",
+        17 => "exp",
+        _ => {
+            if here_ok {
+                "here"
+            } else {
+                "asg"
+            }
+        }
+    };
+    let mut words = vec![word_string(w)];
+    if matches!(ctx, "arg" | "for" | "arr") && r.chance(1, 3) {
+        for _ in 0..1 + r.below(2) {
+            loop {
+                let extra = random_word(r, Ctx::Top, 1, 3);
+                if renderable(&extra) {
+                    words.push(word_string(&extra));
+                    break;
+                }
+            }
+        }
+    }
+    format!("W ctx={} {} | {}", ctx, state, words.join(" ;; "))
+}
+
+/// the family around `will_split` save/restore: nested double quotes, switches and trims inside
+/// double quotes, with `$*`/`$@`/`$x` before, inside-after and after them
+fn will_split_family() -> Vec<Vec<WU>> {
+    let dqw = |ts: Vec<TU>| vec![WU::Dq(ts)];
+    let inner: Vec<Vec<WU>> = vec![
+        dqw(vec![raw("*")]),
+        vec![WU::Unq(raw("*"))],
+        dqw(vec![raw("@")]),
+        vec![WU::Unq(raw("@"))],
+        dqw(vec![TU::Lit('a'), TU::Lit(' '), TU::Lit('b')]),
+        vec![WU::Unq(braced("e", Mo::Sw { colon: true, act: '-', w: dqw(vec![raw("*")]) }))],
+        vec![WU::Unq(braced("x", Mo::Tr { side: '#', long: false, w: dqw(vec![raw("y")]) }))],
+        vec![WU::Unq(raw("x")), WU::Dq(vec![]), WU::Unq(raw("*"))],
+    ];
+    let mut bodies: Vec<Vec<TU>> = vec![vec![raw("*")], vec![raw("@")], vec![raw("x")], vec![]];
+    for w in &inner {
+        bodies.push(vec![braced("u", Mo::Sw { colon: false, act: '-', w: w.clone() })]);
+        bodies.push(vec![braced("x", Mo::Sw { colon: true, act: '+', w: w.clone() })]);
+        bodies.push(vec![braced("u", Mo::Sw { colon: true, act: '=', w: w.clone() })]);
+    }
+    for (side, long) in TRIMS {
+        bodies.push(vec![braced("x", Mo::Tr { side, long, w: dqw(vec![raw("y")]) })]);
+        bodies.push(vec![braced("*", Mo::Tr { side, long, w: dqw(vec![TU::Lit('a')]) })]);
+        bodies.push(vec![braced("@", Mo::Tr { side, long, w: vec![WU::Unq(raw("y"))] })]);
+    }
+    let tails: Vec<Vec<TU>> = vec![
+        vec![],
+        vec![raw("*")],
+        vec![raw("@")],
+        vec![raw("x")],
+        vec![braced("u", Mo::Sw { colon: false, act: '-', w: vec![WU::Unq(raw("*"))] })],
+    ];
+    let afters: Vec<Vec<WU>> = vec![
+        vec![],
+        vec![WU::Unq(raw("*"))],
+        vec![WU::Unq(raw("x"))],
+        vec![WU::Unq(braced("u", Mo::Sw { colon: false, act: '-', w: vec![WU::Unq(raw("*"))] }))],
+        vec![WU::Unq(braced("*", Mo::Sw { colon: false, act: '+', w: vec![WU::Unq(raw("*"))] }))],
+    ];
+    let mut out = vec![];
+    for b in &bodies {
+        for t in &tails {
+            for a in &afters {
+                for before in [false, true] {
+                    let mut w = vec![];
+                    if before {
+                        w.push(WU::Unq(raw("*")));
+                    }
+                    let mut body = b.clone();
+                    body.extend(t.iter().cloned());
+                    w.push(WU::Dq(body));
+                    w.extend(a.iter().cloned());
+                    out.push(w);
+                }
+            }
+        }
+    }
+    out
 }
 
 fn w_case(state: &str, w: &[WU]) -> String {
@@ -1307,9 +1445,9 @@ fn random_tu(r: &mut Rng, ctx: Ctx, depth: usize) -> TU {
         let t = match r.below(10) {
             0 | 1 | 2 => TU::Lit(*r.pick(&['a', 'b', ' ', ':', '*', '\'', '\\'])),
             3 => TU::Bs(*r.pick(&['a', ' ', ':', '*', '\\', '\'', '"', '$', '}'])),
-            4 | 5 => raw(r.pick(&["x", "y", "e", "u", "@", "*", "#", "1", "2", "?", "0", "r"])),
+            4 | 5 => raw(r.pick(&["x", "y", "e", "u", "@", "*", "#", "1", "2", "?", "0", "r", "-", "$", "!"])),
             _ => {
-                let p = *r.pick(&["x", "y", "e", "u", "@", "*", "#", "1", "2", "r"]);
+                let p = *r.pick(&ALL_PARAMS);
                 let m = match r.below(8) {
                     0 => Mo::None,
                     1 => Mo::Len,
@@ -1346,6 +1484,9 @@ fn random_word(r: &mut Rng, ctx: Ctx, depth: usize, max: usize) -> Vec<WU> {
             1 | 2 => {
                 let k = r.below(4);
                 WU::Dq((0..k).map(|_| random_tu(r, Ctx::Dq, depth)).collect())
+            }
+            3 if matches!(ctx, Ctx::Top | Ctx::BraceW) && r.chance(1, 3) => {
+                WU::Dsq(r.pick(&["", "a b", "'", "\\", " : ", "*"]).to_string())
             }
             _ => WU::Unq(random_tu(r, ctx, depth)),
         };
@@ -1390,8 +1531,24 @@ fn main() {
         if !renderable(&w) {
             continue;
         }
-        for _ in 0..k1 {
-            out(w_case(&state_text(&mut rng), &w));
+        for k in 0..k1 {
+            let st = state_text(&mut rng);
+            if k % 2 == 0 {
+                out(w_case(&st, &w));
+            } else {
+                out(ctx_case(&mut rng, &st, &w));
+            }
+        }
+    }
+    // 1b. the will_split family, exhaustively, in every context
+    let kf = if thorough { 12 } else { 3 };
+    for w in will_split_family() {
+        if !renderable(&w) {
+            continue;
+        }
+        for _ in 0..kf {
+            let st = state_text(&mut rng);
+            out(ctx_case(&mut rng, &st, &w));
         }
     }
     // 2. all pairs (thorough: also triples) over the base alphabet
@@ -1430,7 +1587,33 @@ fn main() {
             continue;
         }
         made += 1;
-        out(w_case(&state_text(&mut rng), &w));
+        let st = state_text(&mut rng);
+        if made % 2 == 0 {
+            out(w_case(&st, &w));
+        } else {
+            out(ctx_case(&mut rng, &st, &w));
+        }
+    }
+    // 3b. the braced-parameter lexer: everything that can follow `${`, up to 4 (thorough 5) characters
+    let palpha = ['#', 'x', '1', '0', '-', ':', '?', '%', '@', '}', 'a', '=', '+', '!', '*'];
+    let pmax = if thorough { 5 } else { 4 };
+    let mut pfront = vec![String::new()];
+    out("P | -".into());
+    for _ in 0..pmax {
+        let mut next = vec![];
+        for l in &pfront {
+            for c in palpha {
+                next.push(format!("{l}{c}"));
+            }
+        }
+        for l in &next {
+            if rng.chance(1, 3) {
+                out(format!("P portable=1 | {}", enc_str(l)));
+            } else {
+                out(format!("P | {}", enc_str(l)));
+            }
+        }
+        pfront = next;
     }
     // 4. `read`: all lines up to 3 (thorough 4) characters over a small alphabet, then random longer ones
     let alpha = ['a', ' ', ':', '\\', 'b', '\t', '\n'];
@@ -1454,7 +1637,8 @@ fn main() {
             let ifs = *rng.pick(&read_ifs);
             let n = 1 + rng.below(3);
             let raw = rng.chance(1, 3) as u8;
-            out(format!("R {ifs} raw={raw} n={n} | {}", enc_str(&format!("{l}\n"))).replace("R  ", "R "));
+            let ro = if rng.chance(1, 8) { *rng.pick(&["!v1=s71 ", "!v2=U ", "!v1=U "]) } else { "" };
+            out(format!("R {ro}{ifs} raw={raw} n={n} | {}", enc_str(&format!("{l}\n"))).replace("R  ", "R "));
         }
     }
     let n5 = if thorough { 200_000 } else { 5_000 };
